@@ -64,7 +64,7 @@ def case_s(draw) -> dict[str, Any]:
                                                                          "tags": st.none(), "exc": st.just(False)}), min_size=n, max_size=n))
     mode = draw(st.sampled_from(["forward", "reverse", "reverse-from", "offset", "tail", "head"]))
     k = draw(st.one_of(st.sampled_from([0, 1, max(0, n - 1), n, n + 1, 100]), st.integers(0, max(1, n + 2))))
-    return {"records": recs, "file_level": draw(st.sampled_from([10, 5])), "container": draw(st.sampled_from(["zst", "gz", "plain", "noprio", "stdin", "gz-multi"])),
+    return {"records": recs, "file_level": draw(st.sampled_from([10, 5])), "container": draw(st.sampled_from(["zst", "gz", "plain", "noprio", "stdin", "gz-multi", "mixprio"])),
             "mode": mode, "k": k, "prio": draw(st.integers(0, 8)), "via": draw(st.sampled_from(["reader", "reader", "hr"])),
             "no_final_newline": draw(st.integers(0, 3)) == 0}
 
@@ -157,6 +157,12 @@ def make_container(kind: str, zst: Path, d: Path, no_final_newline: bool = False
     if kind in ("plain", "stdin"):
         p = d / "log.json"
         p.write_bytes(raw)
+        return p
+    if kind == "mixprio":
+        # lines with and without the <prio> prefix in one file (logs of different origin concatenated): every second line loses it
+        p = d / "log-mixprio.json"
+        lines = raw.split(b"\n")
+        p.write_bytes(b"\n".join((l[l.index(b">") + 1:] if (l.startswith(b"<") and i % 2 == 0) else l) for i, l in enumerate(lines)))
         return p
     if kind == "noprio":
         p = d / "log-noprio.json"
